@@ -53,7 +53,20 @@ def same_leaves(inp, out, v, ec):
     return True
 
 
+# C03 is about dropping and reordering, not about re-formatting: numeric/date leaves are drawn from values
+# the datatype factory keeps verbatim (re-formatting is C13's subject)
+VERBATIM = dict(S.LEAF)
+VERBATIM.update({
+    'DT': ['20200101', '2020', '202012', 'x9', '2020010'],
+    'DTM': ['20200101', '202001011230', '20200101123059', '2020', 'q'],
+    'TM': ['1200', '120000', '12', 'noon'],
+    'NM': ['1', '15', '-3', 'abc', '1.5'],
+    'SI': ['1', '12', 'x'],
+})
+
+
 def main(argv=None):
+    S.LEAF = VERBATIM
     run = Run('C03', argv)
     targets = ['Oblig/WfAll.vo']
     obl = ['Oblig/WfAll.v']
